@@ -19,6 +19,8 @@ import (
 func init() {
 	fw.Register(&fw.Prop{
 		ID:       "C08",
+		Builds:   []string{"default", "386"}, // the 386 build runs 1/6 of the random classes on a 32-bit target
+		Scale386: 6,
 		Parallel: 4, // cases are judged on 4 goroutines per shard: the library functions are stateless, shared state inside them shows up as wrong verdicts
 		Rule: "commute: (curve in {secp256k1, P-256}, seed, path, non-hardened index from {0, 1, 2^31-1, random}): DeriveChild on the extended private key then Public() vs. DeriveChild on Public(): key bytes, chain code, fingerprint. shift: (curve, scalar k, 32-byte shift) with shift in {0, 1, k, n-k, n-k+-1, n-1, n, n+1, 2^256-1, random < n, random >= n} and k in {1, 2, n-1, (n+-1)/2, random}: PrivateKey.Shift and PublicKey.Shift must both report ErrInvalidKey or both succeed with pub' = point(priv') (the point computed by the affine model for the returned private scalar); no panic. Whether the common verdict/value is the one SLIP-0010 prescribes is counted here and judged by C02. " +
 			"Non-trivial: distinct shift cases in a named corner class and all commute cases.",
